@@ -875,7 +875,7 @@ Qed.
 Lemma cover_dir C w k r d : RSync C w k r -> c_mask C = WATCHDOG_ALL -> fisdir d (w_fs w) = true ->
   cover C r k (w_fs w) d.
 Proof.
-  intros [W Hr I Cv Hq] Hm Hd. destruct (fisdir_in _ _ Hd) as (de & Hde & Ede & Dde).
+  intros [W Hr I Cv Hq Hpd] Hm Hd. destruct (fisdir_in _ _ Hd) as (de & Hde & Ede & Dde).
   assert (Eino : ino_of (w_fs w) d = f_ino de).
   { unfold ino_of. rewrite <- Ede. now rewrite (flookup_in _ de (wf_paths w W) Hde). }
   unfold cover. rewrite Eino. destruct (watched_dir (c_recursive C) (c_root C) d) eqn:Ew.
@@ -888,7 +888,7 @@ Lemma cover_parent C w k r p ep : RSync C w k r -> c_mask C = WATCHDOG_ALL -> fl
   cover C r k (w_fs w) (dirname p).
 Proof.
   intros S Hm El Np. destruct (fisdir (dirname p) (w_fs w)) eqn:Ed; [now apply cover_dir|].
-  destruct S as [W Hr I Cv Hq]. destruct (flookup_some _ _ _ El) as [Hep Eep].
+  destruct S as [W Hr I Cv Hq Hpd]. destruct (flookup_some _ _ _ El) as [Hep Eep].
   assert (Hnd : ~ isdir_in (dirname p) (w_fs w)).
   { intros H. apply (in_fisdir _ _ (wf_paths w W)) in H. congruence. }
   unfold cover. destruct (watched_dir (c_recursive C) (c_root C) (dirname p)) eqn:Ew.
@@ -935,7 +935,7 @@ Definition c01_op (C : cfg) (w : world) (o : op) : Prop :=
 Lemma delivers_covered C full w k r o w' : RSync C w k r -> c_mask C = WATCHDOG_ALL -> c01_op C w o ->
   apply_op w o = Some w' -> delivers C full w k r o.
 Proof.
-  intros S Hm [Ho Hch] Ha. assert (Hq := rs_queue _ _ _ _ S). assert (W := rs_wf _ _ _ _ S).
+  intros S Hm [Ho Hch] Ha. assert (Hq := rs_queue _ _ _ _ S). assert (Hpd := rs_pend _ _ _ _ S). assert (W := rs_wf _ _ _ _ S).
   destruct Ho as [o Hqo Hn|p Hn|p Hn Hr|p q ep Np Nq El De Ed|p q ep Np Nq Hrec El De Sp Hpr Sq Elq
                   |p q ep Np Nq Hrec Hfix El De Sp Hpr Sq Elq|p q ep v Np Nq Hrec El De Sp Hpr Sq Hqr Elq Dv
                   |p q ep Np Nq El De Hpr Hqr Hupr Hpl].
@@ -945,38 +945,38 @@ Proof.
   - destruct o as [p|p|p|p|p|p|p q]; try contradiction; cbn [op_np] in Hn;
       destruct Hn as (d & n & -> & [Hd Hs] & Hv); assert (Np : npath (d ++ sep :: n)) by (exists d, n; repeat split; assumption);
       assert (Edn := dirname_np d n (conj Hd Hs) Hv).
-    + apply (contract_touch C full w k r Hq d n w'); try assumption. apply cover_dir; try assumption.
+    + apply (contract_touch C full w k r Hq Hpd d n w'); try assumption. apply cover_dir; try assumption.
       cbn [apply_op] in Ha. rewrite Edn in Ha. destruct (fisdir d (w_fs w)); [reflexivity | discriminate].
-    + apply (contract_write C full w k r Hq d n w'); try assumption. cbn [apply_op] in Ha.
+    + apply (contract_write C full w k r Hq Hpd d n w'); try assumption. cbn [apply_op] in Ha.
       destruct (flookup (d ++ sep :: n) (w_fs w)) as [e|] eqn:El; [|discriminate].
       rewrite <- Edn. eapply cover_parent; eassumption.
     + cbn [apply_op] in Ha. unfold fexists in Ha. destruct (flookup (d ++ sep :: n) (w_fs w)) as [e|] eqn:El; [|discriminate].
       assert (Cd : cover C r k (w_fs w) d) by (rewrite <- Edn; eapply cover_parent; eassumption).
       destruct (fisdir (d ++ sep :: n) (w_fs w)) eqn:Ef.
-      * apply (contract_chmod_dir C full w k r Hq d n w'); try assumption.
+      * apply (contract_chmod_dir C full w k r Hq Hpd d n w'); try assumption.
         -- now apply cover_dir.
         -- cbn [apply_op]. unfold fexists. now rewrite El.
-      * apply (contract_chmod_file C full w k r Hq d n w'); try assumption. cbn [apply_op]. unfold fexists. now rewrite El.
-    + apply (contract_unlink C full w k r Hq d n w'); try assumption. cbn [apply_op] in Ha.
+      * apply (contract_chmod_file C full w k r Hq Hpd d n w'); try assumption. cbn [apply_op]. unfold fexists. now rewrite El.
+    + apply (contract_unlink C full w k r Hq Hpd d n w'); try assumption. cbn [apply_op] in Ha.
       destruct (flookup (d ++ sep :: n) (w_fs w)) as [e|] eqn:El; [|discriminate].
       rewrite <- Edn. eapply cover_parent; eassumption.
   - destruct Hn as (d & n & -> & [Hd Hs] & Hv). assert (Np : npath (d ++ sep :: n)) by (exists d, n; repeat split; assumption).
     assert (Edn := dirname_np d n (conj Hd Hs) Hv). assert (Ha' := Ha). cbn [apply_op] in Ha'. rewrite Edn in Ha'.
     destruct (fisdir d (w_fs w)) eqn:Fd; [|discriminate]. destruct (fexists (d ++ sep :: n) (w_fs w)) eqn:Fx; [discriminate|].
-    apply (contract_mkdir C full w k r Hq d n w'); try assumption; [now apply cover_dir|].
+    apply (contract_mkdir C full w k r Hq Hpd d n w'); try assumption; [now apply cover_dir|].
     apply no_children_absent; try assumption; [now rewrite Edn|].
     unfold fexists in Fx. now destruct (flookup (d ++ sep :: n) (w_fs w)).
   - destruct Hn as (d & n & -> & [Hd Hs] & Hv). assert (Np : npath (d ++ sep :: n)) by (exists d, n; repeat split; assumption).
     assert (Edn := dirname_np d n (conj Hd Hs) Hv). assert (Ha' := Ha). cbn [apply_op] in Ha'.
     destruct (flookup (d ++ sep :: n) (w_fs w)) as [e|] eqn:El; [|discriminate]. destruct (f_dir e) eqn:De; [|discriminate].
-    apply (contract_rmdir C full w k r Hq d n w'); try assumption.
+    apply (contract_rmdir C full w k r Hq Hpd d n w'); try assumption.
     + rewrite <- Edn. eapply cover_parent; eassumption.
     + apply cover_dir; try assumption. unfold fisdir. now rewrite El.
   - destruct (rename_inv w p q w' W Np Nq Ha) as (ep' & t1 & Elp & Hne & Hupq & Edq & _ & Hbelow & Hq1).
     assert (ep' = ep) by congruence. subst ep'.
     destruct Np as (dp & np & -> & [Hdp Hsp] & Hvp). destruct Nq as (dq & nq & -> & [Hdq Hsq] & Hvq).
     rewrite (dirname_np dq nq (conj Hdq Hsq) Hvq) in Edq. rewrite (dirname_np dp np (conj Hdp Hsp) Hvp) in Ed.
-    apply (contract_rename_file C full w k r Hq dp np dq nq w'); try assumption; try (now apply cover_dir).
+    apply (contract_rename_file C full w k r Hq Hpd dp np dq nq w'); try assumption; try (now apply cover_dir).
     + unfold fisdir. now rewrite El.
     + unfold fisdir. destruct Hq1 as [[-> _]|(v & -> & _ & [[_ Hv]|(Hd & _)])]; [reflexivity | exact Hv | congruence].
   - destruct (rename_inv w p q w' W Np Nq Ha) as (ep' & t1 & Elp & Hne & Hupq & Edq & _ & Hbelow & Hq1).
@@ -984,7 +984,7 @@ Proof.
     assert (Npp := Np). assert (Nqq := Nq).
     destruct Np as (dp & np & -> & [Hdp Hsp] & Hvp). destruct Nq as (dq & nq & -> & [Hdq Hsq] & Hvq).
     rewrite (dirname_np dq nq (conj Hdq Hsq) Hvq) in Edq. rewrite (dirname_np dp np (conj Hdp Hsp) Hvp) in Cp.
-    apply (contract_rename_dir C full w k r Hq dp np dq nq w'); try assumption; try (now apply cover_dir).
+    apply (contract_rename_dir C full w k r Hq Hpd dp np dq nq w'); try assumption; try (now apply cover_dir).
     + unfold fisdir. now rewrite El.
     + unfold fexists. now rewrite Elq.
     + intros e He. apply npath_wf_path. now apply (wf_np w W).
@@ -1094,7 +1094,7 @@ Theorem replay_from_start C full ops w : c_faults C = [] -> c_mask C = WATCHDOG_
     forall x, alookup beqb x (replay (c_recursive C) (c_root C) (tree_of (c_recursive C) (c_root C) w) out)
             = alookup beqb x (tree_of (c_recursive C) (c_root C) w').
 Proof.
-  intros Hf Hm W Hroot Hc. destruct (construct_cover C Hf w W Hroot) as (r0 & k0 & Hcons & I & Cv & Hq & _).
+  intros Hf Hm W Hroot Hc. destruct (construct_cover C Hf w W Hroot) as (r0 & k0 & Hcons & I & Cv & Hq & _ & Hp0).
   assert (S : RSync C w k0 r0) by (constructor; try assumption; now apply fisdir_in).
   destruct (replay_sequential C full Hf Hm ops w k0 r0 (tree_of (c_recursive C) (c_root C) w) [] S (TInv_init _ _ w W) Hc)
     as (w' & k' & r' & out & Hrun & _ & T).
